@@ -77,3 +77,27 @@ Example history_sample :
     [[EvNode "module" 0; EvInst KMod "a" 0 "" false; EvNode "attribute" 1; EvInst KAttr "x" 1 "a" false; EvMembers KMod "a" 0 "a"];
      [EvNode "module" 0; EvInst KMod "b" 0 "" false; EvAlias "os" 1 "b" false; EvMembers KMod "b" 0 "b"]].
 Proof. split; vm_compute; reflexivity. Qed.
+
+(* ---------- without the NoDup hypothesis: an extension registered k times receives every event k times ---------- *)
+Lemma received_row : forall e ev c,
+  received e (map (fun x => (x, ev)) c) = repeat ev (count_occ Nat.eq_dec c e).
+Proof.
+  induction c as [|x r IH]; [reflexivity|]. unfold received in *. simpl.
+  destruct (Nat.eq_dec x e) as [E|E].
+  - subst x. rewrite Nat.eqb_refl. simpl. f_equal. exact IH.
+  - apply Nat.eqb_neq in E. rewrite E. exact IH.
+Qed.
+Lemma received_deliver_general : forall e c evs,
+  received e (deliver c evs) = flat_map (fun ev => repeat ev (count_occ Nat.eq_dec c e)) evs.
+Proof.
+  intros. induction evs as [|ev r IH]; [reflexivity|].
+  unfold deliver in *. simpl. rewrite received_app, IH, received_row. reflexivity.
+Qed.
+
+(* Every history, every container (no hypothesis): what extension e receives of the visit that follows [pre] is the
+   visit's trace with every event repeated as many times as e is registered at that moment (0 times: nothing; once:
+   exactly the trace). *)
+Theorem history_announces_general : forall pre m b post c e,
+  exists log, nth_error (run_history c (pre ++ HVisit m b :: post)) (visits pre) = Some log /\
+    received e log = flat_map (fun ev => repeat ev (count_occ Nat.eq_dec (c ++ adds pre) e)) (visit_events m b).
+Proof. intros. eexists. split; [apply run_history_app_adds|apply received_deliver_general]. Qed.
